@@ -885,7 +885,9 @@ class C20(World):
         fid3 = "C20-gltf-accessor-without-view-trusts-count"
         if (outcome == "memory-error" or res["peak"] > budget_mem(total)) and ctx.is_known(fid3) and not foreign:
             declared = gltf_unbacked_bytes(files, main)
-            if declared > budget_mem(total) and (outcome == "memory-error" or res["peak"] <= 64 * declared + budget_mem(total)):
+            # (what is allocated is a small multiple of what is declared - converted copies of the zeros - so a declaration below the
+            #  budget can still end above it: the declaration must explain the peak, it need not exceed the budget on its own)
+            if declared > budget_mem(total) / 64 and (outcome == "memory-error" or res["peak"] <= 64 * declared + budget_mem(total)):
                 # recorded finding: zeros are allocated for whatever count such an accessor declares
                 ctx.finding(fid3, f"{declared} bytes declared by an accessor without a buffer view in {total} bytes: {outcome}, peak {res['peak']}")
                 return
